@@ -9,8 +9,8 @@ from ..sim import Monitor
 from .common import all_demes, fb, flat, gb, same_float, sentinel
 
 PROP = "C02"
-N_QUICK = 3000
-N_THOROUGH = 60000
+N_QUICK = 7000
+N_THOROUGH = 150000
 RULE = ("Plans: all engine mixes and GSC / LSC / sprout mechanisms, entry points tree/hms/minimize; strata with and "
         "without an evaluation cutoff (fault-free stratum accepts no sentinel at all); faults: budget exhaustion at an "
         "arbitrary request index, external stop signal, injected LSC verdicts.")
@@ -25,7 +25,18 @@ PROFILE = P.profile(p_cutoff=0.4, entry_w={"tree": 8, "hms": 1, "minimize": 1.5}
 
 
 def gen(seed, tier):
-    return P.gen_plan(seed, PROFILE, PROP)
+    pl = P.gen_plan(seed, PROFILE, PROP)
+    # a quarter of the multi-stack plans: every level has its own objective (coarse / fine models of one landscape)
+    if "stacks" in pl and len(pl["stacks"]) > 1 and seed % 4 == 0:
+        import copy
+
+        so = []
+        for si in range(len(pl["stacks"])):
+            o = copy.deepcopy(pl["objective"])
+            o["offset"] = o.get("offset", 0.0) + 2.5 * si
+            so.append(o)
+        pl["stack_objectives"] = so
+    return pl
 
 
 class C02Monitor(Monitor):
@@ -33,11 +44,31 @@ class C02Monitor(Monitor):
 
     def __init__(self, w):
         super().__init__(w)
-        self.pure = objectives.make_pure(w.plan["objective"])
+        from ..build import objective_spec
+
+        n_st = len(w.plan.get("stacks", [None]))
+        self.pures = [objectives.make_pure(objective_spec(w.plan, si)) for si in range(max(1, n_st))]
+        self.pure = self.pures[0]
+        if w.plan.get("stack_objectives"):
+            w.probe("c02-per-level-objectives")
         self.maximize = bool(w.plan["maximize"])
         self.recorded = {}  # (id(deme), gen index) -> digest
         self.keep = []  # strong refs
         self.mid = w.plan.get("c02_mid_consults", False)
+
+    def _pure_for(self, ind):
+        """The objective of the problem the individual itself is attached to (levels may have their own)."""
+        if len(self.pures) == 1:
+            return self.pure
+        p = getattr(ind, "problem", None)
+        hops = 0
+        while p is not None and hops < 20:
+            ff = p.__dict__.get("fitness_function") if hasattr(p, "__dict__") else None
+            if ff is not None and hasattr(ff, "stack_id"):
+                return self.pures[ff.stack_id]
+            p = p.__dict__.get("_inner") if hasattr(p, "__dict__") else None
+            hops += 1
+        return self.pure
 
     def _refused(self, deme, g):
         o = self.w.deme_ord(deme)
@@ -50,7 +81,7 @@ class C02Monitor(Monitor):
         w = self.w
         w.probe("c02-individuals-reevaluated")
         x = np.asarray(ind.genome, dtype=float)
-        want = self.pure(x)
+        want = self._pure_for(ind)(x)
         if same_float(ind.fitness, want):
             return
         if same_float(ind.fitness, sentinel(self.maximize)):
